@@ -33,7 +33,7 @@ CLAIMS = {
          "Chroot equivalence is carried by the lockstep run against a standalone file system with snapshots of everything outside the base directory; symlinks in the base pointing outside are assumed absent.",
          "Lean 4 proof (over the component semantics of Clean) + regenerated tables + lockstep differential", "§3 C10"),
  "C11": ("Lean 4 theorems over views of the MemFS model: a call through one view never changes user, umask, root or cwd of another view; handle operations only touch the view they were opened through; view setters leave the shared tree untouched; the tree is shared.",
-         "sub_sim (prefix simulation) is not a theorem: it is decided on the implementation by a twin run (every call through a view replayed on a second instance through the parent with the view's directory prefixed, outcomes and whole trees compared after every call) and a setter-isolation oracle (User/UMask/Getwd of all other views around every per-view setter), on every generated history.",
+         "sub_sim (prefix simulation) is proved for path resolution, Mkdir, Remove and Stat on clean absolute paths that meet no symbolic link (C11_sub_sim_*); beyond that it is decided on the implementation by a twin run (every call through a view replayed on a second instance through the parent with the view's directory prefixed, outcomes and whole trees compared after every call) and a setter-isolation oracle (User/UMask/Getwd of all other views around every per-view setter), on every generated history.",
          "Lean 4 proof (case analysis over step) + differential correspondence with views", "§3 C11"),
  "C02": ("Lean 4 theorems over the handle model (fileStep): EOF beyond the end, zero-filled gaps, O_APPEND at the current end, access-mode enforcement, closed handles have no effect, a handle survives removal of its name, handles share the inode, directory batches deliver each entry once then EOF — for all contents, offsets and sizes.",
          "Whole histories of read/pread/write/pwrite/lseek/ftruncate on any number of handles of one file are proved to refine a POSIX-style reference given pointwise (C02_history_refines), within the file size limit; attribute calls, directory handles beyond one pass, and OrefaFS handles (executable model + correspondence only) are not part of that theorem; the os.File side is an oracle run (tmpfs) with recorded divergence classes (known_findings.jsonl).",
